@@ -24,7 +24,9 @@ def insecure_settings(op):
     u = URL_CLASS[op.get("url", "")]
     if u:
         s.append(u)
-    if "nuts" in op.get("methods", []) and not op.get("tls"):
+    parts = op.get("tlsparts")
+    tls_on = op.get("tls") if parts is None else ("c" in parts or "k" in parts)   # a trust store alone is not TLS
+    if "nuts" in op.get("methods", []) and not tls_on:
         s.append("tls-off")
     if op.get("crypto", "") == "":
         s.append("crypto-implicit")
@@ -59,7 +61,8 @@ def run(ctx):
                 "fact_engine_conditions", "fact_http_client", "fact_iam_strictmode", "fact_iam_method_inventory", "iam_calls_strict", "fact_client_strict_unconditional", "fact_outbound_inventory", "fact_iam_call_sites", "fact_misc_sites", "fact_filter_and_validator_comparisons", "remote_contexts_exact", "remote_context_prefix_witness", "dummy_any_spelling", "fact_redirect_check_reads_global", "early_client_strict", "iam_endpoints_strict", "iam_endpoint_witness", "fact_engine_order", "fact_secret_flags", "fact_flags_resolved", "fact_redacted_keys",
                 "fact_response_cap", "response_cap_exact", "response_never_truncated", "reader_limit_witness", "do_bytes_refines", "do_body_bounded", "outbound_https_only_bytes",
                 "fact_config_sources", "fact_load_steps", "source_precedence", "strict_only_off_when_told", "command_line_strict_wins", "sources_to_decision",
-                "env_key_normal", "env_list_plain", "load_check_order", "load_full_refines_load"]
+                "env_key_normal", "env_list_plain", "load_check_order", "load_full_refines_load",
+                "fact_crypto_backends_tls_enabled", "crypto_backend_exact", "start_files_refines", "tls_never_half"]
     for r in required:
         if not any(t.endswith("Props." + r) for t in thms):
             ctx.oblige("thm-present:" + r, False, "theorem missing or its module does not build")
@@ -202,7 +205,14 @@ def run(ctx):
             distinct.add(("sys",) + row)
             ins = insecure_settings(op)
             outcomes["sys " + ("strict " if strict else "lenient ") + (line.split()[1] if line.startswith("sys refuse") else "ok")] += 1
-            malformed = op.get("crypto") == "bogus" or op.get("url", "") == ""
+            half_tls = op.get("tlsparts") not in (None, "", "t", "ckt")   # certificate without key etc.: cannot be loaded, either mode
+            malformed = op.get("crypto", "") not in ("", "fs") or op.get("url", "") == "" or half_tls
+            if op.get("tlsparts") is not None:
+                feats_src.append(op["tlsparts"])
+            if half_tls and line.startswith("sys ok"):
+                violation("half-tls-started:" + op["tlsparts"], f"node started with an incomplete TLS configuration (tls.* files set: {op['tlsparts']}): {line}", opl)
+            if op.get("tag") == "crypto-names" and line.startswith("sys ok"):
+                violation("crypto-backend-name-accepted:" + op.get("crypto", ""), f"crypto.storage={op.get('crypto')!r} is not a back-end name but the node started", opl)
             if strict:
                 if (ins or malformed) and not line.startswith("sys refuse"):
                     violation("strict-accepted:" + (ins[0] if ins else "malformed"), f"strict node started with insecure settings {ins}: {line}", opl)
@@ -325,6 +335,7 @@ def run(ctx):
                    f"only in facts: {sorted(set(ff) - set(flag_names))[:6]}; only in the binary: {sorted(set(flag_names) - set(ff))[:6]}")
         ctx.oblige("iam-matrix-run", feats_default[1] >= 12 * 9, f"{feats_default[1]} (method, endpoint) calls of the IAM client")
         ctx.oblige("source-rows-run", feats_src[0] >= 100 and feats_src[1] >= 15, f"{feats_src[0]} source combinations, {feats_src[1]} continued into Configure")
+        ctx.oblige("tls-file-rows-run", len(set(feats_src[2:])) == 8, f"tls.* subsets run: {sorted(set(feats_src[2:]))}")
         capn = feats_default[2:]
         ctx.oblige("response-cap-rows-run", any(n == 1024 * 1024 for n in capn) and any(n == 1024 * 1024 + 1 for n in capn) and len(capn) >= 30,
                    f"{len(capn)} response-cap cases (sizes incl. exactly 1 MiB and 1 MiB + 1)")
